@@ -92,6 +92,18 @@ func soCompared(fd *ast.FuncDecl, recv, field string, consts map[string]string) 
 	return out, ok
 }
 
+// soList renders strings as a Coq list of byte strings.
+func soList(xs []string) string {
+	out := "["
+	for i, x := range xs {
+		if i > 0 {
+			out += "; "
+		}
+		out += "hex \"" + hexOf([]byte(x)) + "\""
+	}
+	return out + "]"
+}
+
 func (g *gen) sessOut() {
 	g.p("From Coq Require Import NArith.\n\n")
 	sess := g.parse("session.go")
@@ -153,6 +165,61 @@ func (g *gen) sessOut() {
 		g.p("hex \"%s\"", hexOf([]byte(s)))
 	}
 	g.p("].\n")
+
+	// the stanza tests of the SendIQ / SendMessage / SendPresence families
+	g.p("\n(* ---- session.go isIQEmptySpace, session_message.go isMessageEmptySpace, session_presence.go isPresenceEmptySpace:\n        (local names, name spaces) each accepts ---- *)\n")
+	g.p("Definition so_kind_tables : list (list bytes * list bytes) := [")
+	for i, kf := range [][2]string{{"session.go", "isIQEmptySpace"}, {"session_message.go", "isMessageEmptySpace"}, {"session_presence.go", "isPresenceEmptySpace"}} {
+		var ls, ss []string
+		if f := g.parse(kf[0]); f != nil {
+			if kfd := funcDecl(f, kf[1]); kfd != nil {
+				var o1, o2 bool
+				ls, o1 = soCompared(kfd, "name", "Local", consts)
+				ss, o2 = soCompared(kfd, "name", "Space", consts)
+				if !o1 || !o2 {
+					g.errs = append(g.errs, kf[0]+": "+kf[1]+" is not a combination of comparisons with constants")
+				}
+			} else {
+				g.errs = append(g.errs, kf[0]+": "+kf[1]+" not found")
+			}
+		}
+		if i > 0 {
+			g.p(";")
+		}
+		g.p("\n  (%s, %s)", soList(ls), soList(ss))
+	}
+	g.p("].\n")
+
+	// the attribute names the stanza encoder looks at
+	g.p("\n(* ---- session.go stanzaEncoder.EncodeToken: its non-empty string literals, in order of first use ---- *)\n")
+	var lits []string
+	for _, d := range sess.Decls {
+		sfd, is := d.(*ast.FuncDecl)
+		if !is || sfd.Name.Name != "EncodeToken" || sfd.Recv == nil || len(sfd.Recv.List) != 1 {
+			continue
+		}
+		star, is := sfd.Recv.List[0].Type.(*ast.StarExpr)
+		if !is {
+			continue
+		}
+		if id, is := star.X.(*ast.Ident); !is || id.Name != "stanzaEncoder" {
+			continue
+		}
+		seen := map[string]bool{}
+		ast.Inspect(sfd, func(n ast.Node) bool {
+			if bl, is := n.(*ast.BasicLit); is && bl.Kind == token.STRING {
+				if v, err := strconv.Unquote(bl.Value); err == nil && v != "" && !seen[v] {
+					seen[v] = true
+					lits = append(lits, v)
+				}
+			}
+			return true
+		})
+	}
+	if len(lits) == 0 {
+		g.errs = append(g.errs, "session.go: (*stanzaEncoder).EncodeToken not found or without string literals")
+	}
+	g.p("Definition so_se_literals : list bytes := %s.\n", soList(lits))
 
 	g.p("\n(* ---- internal/attr/idgen.go, internal/stream/stream.go ---- *)\n")
 	idlen := -1
